@@ -137,4 +137,14 @@ CLAIMS = {
    note=TB + "Partial: net/http's own accounting towards the client is assumed; deferred emission on panic is exercised (mid-body faults) not proved."),
 }
 
+CLAIMS['C18'] = dict(engine='proxy+control+soak', technique='Lean 4 proof (lockset => happens-before, rank order => no waiting cycle, command-panic invariant over all histories) with the lock-discipline facts re-extracted from the source on every run and re-proved by the kernel; race-detector soak as failing-schedule search',
+   text="Theorems (Model/Locks, generic over threads/locks/fields, every trace): mutual exclusion orders conflicting critical sections by a "
+        "release/acquire pair; a field all of whose sites hold one lock (exclusively at writes) has no data race; ranked lock acquisition "
+        "plus no other blocking under a lock admits no cycle of waiting threads. Theorems (control model, every history incl. restarts): no "
+        "command returns by panicking (pause-channel invariant; F4 repaired), no state file makes a restore panic; rotation index in range; "
+        "the became-healthy channel is closed only on adding->healthy. Tie: the hypotheses about the source (which lock guards which field, "
+        "acquisition order, blocking operations, the complete list of self-panicking operations) are regenerated from /repo by verifx and "
+        "re-proved by `decide` on every run (Tie/C18); 4 races of the pinned tree were repaired (F10a-d), one is a recorded finding (F10e).",
+   note=TB + "Partial: the data-race and deadlock claims are proved for the lock-level abstraction of the code that verifx extracts (a syntactic lockset walk, trusted; reflection, atomics, channels and WaitGroup ordering are outside it and covered by the race-enabled soak only); nil dereferences and runtime-internal panics are not modelled.")
+
 NA_REASON = {}
